@@ -304,12 +304,15 @@ func genC15(t *rapid.T) C15Case {
 		return c
 	}
 	if c.Target == "file" && rapid.IntRange(0, 9).Draw(t, "epochHigh") == 0 {
-		c.Now = rapid.Int64Range(1<<31, 1<<32-100000).Draw(t, "nowHigh")
+		// zone Z7 also applies to hostile files' clocks: two coarsest steps (of the small layouts, < 2^24 s) below 2^32
+		c.Now = rapid.Int64Range(1<<31, 1<<32-1<<26).Draw(t, "nowHigh")
 	}
 	valid := genValidBytesAt(t, c.Target, c.Now)
 	if c.Target == "file" && rapid.IntRange(0, 14).Draw(t, "hugeStep") == 0 {
 		// one archive, huge step x tiny count: retention around 2^31 .. 2^32; base interval aligned
-		step := int64(1) << uint(rapid.IntRange(26, 31).Draw(t, "stepLog"))
+		// (clock realistic and step <= 2^30: now + 2 steps stays below 2^32, zone Z7)
+		c.Now = 1500000000 + rapid.Int64Range(0, 100000).Draw(t, "nowForHuge")
+		step := int64(1) << uint(rapid.IntRange(26, 30).Draw(t, "stepLog"))
 		pts := rapid.Int64Range(1, 9).Draw(t, "pts")
 		b := make([]byte, 28+12*pts)
 		copy(b, EncodeWspHeader(uint32(rapid.IntRange(1, 6).Draw(t, "method")), uint32(step*pts), 0.5, []WspArchive{{Offset: 28, Step: uint32(step), Points: uint32(pts)}}))
